@@ -752,8 +752,16 @@ func buildReply(h *helper, p *replyPlan, req *xmltree.Node, n int) string {
 		}
 	}
 	var sb strings.Builder
+	prefixed := class != "canon" && class != "error" && r.Intn(4) == 0
 	for _, s := range stanzas {
-		sb.WriteString(s.str())
+		if prefixed {
+			sb.WriteString(s.strPrefixed())
+		} else {
+			sb.WriteString(s.str())
+		}
+	}
+	if prefixed {
+		muts = append(muts, "prefixed")
 	}
 	out := sb.String()
 	if class == "bytes" {
